@@ -734,9 +734,105 @@ fn size_sweep(ctx: &Ctx, kinds: &[Kind], thorough: bool) {
     ctx.extra("size_sweep_sizes", json!(sizes));
 }
 
+/// Creations that fail half-way (deviation bound 1 on the environment: one mmap call fails, or
+/// one query of the backing file's length fails / reports a shrunken file): whoever asked owns
+/// nothing afterwards, so nothing the library mapped on the way may remain.
+#[cfg(not(feature = "xen"))]
+fn failed_creations(ctx: &Ctx) {
+    use crate::interpose::{fail_fd_mmap_in, fail_mmap_in, net_mapped, record_maps, with_seek_handler, SeekAnswer};
+    use vm_memory::FileOffset;
+    if let Err(e) = crate::interpose::selftest_seek() {
+        ctx.machinery(&e);
+        return;
+    }
+    let mut runs = 0u64;
+    for size in [100usize, 4096, 0x1800, 8192, (2 << 20) + 0x800] {
+        for route in 0..4usize {
+            let file_backed = route != 0;
+            let make = |f: &std::fs::File| -> Result<(), String> {
+                let fo = || FileOffset::new(f.try_clone().unwrap(), 0);
+                match route {
+                    0 => GuestRegionMmap::<()>::from_range(GuestAddress(0x10_0000), size, None).map(drop).map_err(|e| format!("{:?}", e)),
+                    1 => GuestRegionMmap::<()>::from_range(GuestAddress(0x10_0000), size, Some(fo())).map(drop).map_err(|e| format!("{:?}", e)),
+                    2 => vm_memory::MmapRegion::<()>::from_file(fo(), size).map(drop).map_err(|e| format!("{:?}", e)),
+                    _ => GuestMemoryMmap::<()>::from_ranges_with_files(&[(GuestAddress(0x10_0000), size, Some(fo())), (GuestAddress(0x80_0000), size, Some(fo()))]).map(drop).map_err(|e| format!("{:?}", e)),
+                }
+            };
+            let f = crate::layouts::tempfile().unwrap();
+            f.set_len(SIZE.max(size) as u64 * 2).unwrap();
+            // count the environment calls of a successful creation
+            let nseek = std::rc::Rc::new(std::cell::Cell::new(0usize));
+            let ns = nseek.clone();
+            let (res, log) = record_maps(|| with_seek_handler(Box::new(move |_, _, _| { ns.set(ns.get() + 1); SeekAnswer::Pass }), || make(&f)));
+            if let Err(e) = res {
+                ctx.fail("C12/failed-creation/valid-creation-refused", &format!("route {} size {:#x}: {}", route, size, e), json!({"route": route, "size": size}));
+                continue;
+            }
+            let nmap = log.iter().filter(|e| matches!(e, MapEvent::Map { fd, .. } if !file_backed || *fd >= 0)).count();
+            if !net_mapped(&log).is_empty() {
+                ctx.fail("C12/failed-creation/address-space-leaked", &format!("route {} size {:#x}: created and dropped, still mapped {:x?}", route, size, net_mapped(&log)), json!({"route": route, "size": size}));
+            }
+            let mut faults: Vec<(&str, usize, usize)> = Vec::new(); // (what, nth, variant)
+            for k in 0..nmap {
+                faults.push(("mmap", k, 0));
+            }
+            for k in 0..nseek.get() {
+                faults.push(("lseek fails", k, 0));
+                faults.push(("lseek reports an empty file", k, 1));
+            }
+            for (what, k, variant) in faults {
+                runs += 1;
+                ctx.case(true);
+                let describe = || ("C12/failed-creation".to_string(), format!("route {} size {:#x}: {} #{}", route, size, what, k), json!({"route": route, "size": size, "fault": what, "nth": k}));
+                let r = crate::crash::guarded(ctx, &describe, || {
+                    record_maps(|| {
+                        if what == "mmap" {
+                            if file_backed {
+                                fail_fd_mmap_in(k as i64);
+                            } else {
+                                fail_mmap_in(k as i64);
+                            }
+                            let r = make(&f);
+                            fail_mmap_in(-1);
+                            r
+                        } else {
+                            let i = std::rc::Rc::new(std::cell::Cell::new(0usize));
+                            with_seek_handler(
+                                Box::new(move |_, _, whence| {
+                                    let me = i.get();
+                                    i.set(me + 1);
+                                    if me != k {
+                                        SeekAnswer::Pass
+                                    } else if variant == 0 {
+                                        SeekAnswer::Err(libc::EIO)
+                                    } else if whence == libc::SEEK_END {
+                                        SeekAnswer::Ret(0)
+                                    } else {
+                                        SeekAnswer::Pass
+                                    }
+                                }),
+                                || make(&f),
+                            )
+                        }
+                    })
+                });
+                if let Some((res, log)) = r {
+                    let left = net_mapped(&log);
+                    if !left.is_empty() {
+                        ctx.fail("C12/failed-creation/address-space-leaked", &format!("route {} size {:#x}, {} #{}: the creation {} and {:x?} is still mapped with no owner", route, size, what, k, if res.is_ok() { "succeeded, the region was dropped" } else { "failed" }, left), describe().2);
+                    }
+                }
+            }
+        }
+    }
+    ctx.add_transitions(runs);
+    ctx.add_traces(runs);
+    ctx.extra("failed_creation_runs", json!(runs));
+}
+
 pub fn run(tier: Tier, replay: Option<String>) -> i32 {
     let ctx = crate::new_ctx("C12", tier, "model_checking", &replay);
-    ctx.set_rule("E1: BFS over all histories up to the depth bound of {create region (owned anonymous / owned file-backed / external raw / external raw file-backed; Xen build: UNIX, grant in advance, foreign on the emulated devices), build a map from any subset of region handles, insert, remove (yields a removed-region handle), clone map, wrap in GuestMemoryAtomic, snapshot, clone handle, drop ANY live handle}; state = owner graph (which handle keeps which region alive), each frontier state is rebuilt by replaying its history on the real objects with mmap/munmap (and the grant ioctls) recorded through link-time interposition. After every step: a region with an owner has not been passed to munmap and is readable; a region whose last owner went away was munmap'ed exactly once with exactly its mapped length (grant: plus exactly one matching unmap ioctl); external mappings are never unmapped; at the end of every history all remaining handles are dropped and the same invariant is checked. Address-space accounting: the whole mapping log is replayed after every step; every page the library mapped while creating a region is attributed to it, all pages of a region with an owner must still be mapped, and none of the pages attributed to a region without owners may remain. Size sweep: the life cycle {create, build, clone, atomic, snapshot, optional remove} followed by the drop orders of the five owners for owned regions of 1 byte .. 32 MiB+1 (thorough: .. 1 GiB+1; page multiples and not, around the 2 MiB huge-page size), same invariants.");
+    ctx.set_rule("E1: BFS over all histories up to the depth bound of {create region (owned anonymous / owned file-backed / external raw / external raw file-backed; Xen build: UNIX, grant in advance, foreign on the emulated devices), build a map from any subset of region handles, insert, remove (yields a removed-region handle), clone map, wrap in GuestMemoryAtomic, snapshot, clone handle, drop ANY live handle}; state = owner graph (which handle keeps which region alive), each frontier state is rebuilt by replaying its history on the real objects with mmap/munmap (and the grant ioctls) recorded through link-time interposition. After every step: a region with an owner has not been passed to munmap and is readable; a region whose last owner went away was munmap'ed exactly once with exactly its mapped length (grant: plus exactly one matching unmap ioctl); external mappings are never unmapped; at the end of every history all remaining handles are dropped and the same invariant is checked. Address-space accounting: the whole mapping log is replayed after every step; every page the library mapped while creating a region is attributed to it, all pages of a region with an owner must still be mapped, and none of the pages attributed to a region without owners may remain. Size sweep: the life cycle {create, build, clone, atomic, snapshot, optional remove} followed by the drop orders of the five owners for owned regions of 1 byte .. 32 MiB+1 (thorough: .. 1 GiB+1; page multiples and not, around the 2 MiB huge-page size), same invariants. Failed creations (std build): anonymous and file-backed regions and a two-region map created through four routes with exactly one mmap call failing, or one query of the file length failing or reporting an empty file: nothing the library mapped on the way may remain.");
     ctx.assume("the 'programs' half of the property (accessors cannot outlive their parent) is decided by the compile-fail grid in tools/cfail.py and rests on Rust's borrow checker");
     if ctx.replay_of.is_some() {
         println!("replay: deterministic search; re-running it");
@@ -752,6 +848,8 @@ pub fn run(tier: Tier, replay: Option<String>) -> i32 {
     let kinds = [Kind::XenUnix, Kind::XenGrant, Kind::XenForeign];
     explore(&ctx, &kinds, if thorough { 8 } else { 6 }, if thorough { 7 } else { 5 });
     size_sweep(&ctx, &kinds, thorough);
+    #[cfg(not(feature = "xen"))]
+    failed_creations(&ctx);
     ctx.set_exhaustive(true);
     ctx.finish()
 }
